@@ -137,9 +137,23 @@ def instrumented(fake, clock):
     s3c._hmac_sha256_digest = hmac_spy
     s3c.S3Compatible._prepare_request = prepare_spy
     U.time = NoSleep
+    import asyncio as _asyncio
+    import backoff._async as _ba
+
+    class _FastAsyncio:
+        """backoff's pauses between retries are virtual"""
+        def __getattr__(self, name):
+            return getattr(_asyncio, name)
+
+        @staticmethod
+        async def sleep(seconds, result=None):
+            return result
+    saved_ba = _ba.asyncio
+    _ba.asyncio = _FastAsyncio()
     try:
         yield s3c
     finally:
+        _ba.asyncio = saved_ba
         (s3c.httpx, s3c.datetime, s3c._get_data_hexdigest, s3c._hmac_sha256_digest, U.time,
          s3c.S3Compatible._prepare_request) = saved
 
